@@ -328,7 +328,7 @@ def _stream_chunk(binpath, args, chunk, per_line, deadline, max_restarts=40):
     return res, died
 
 
-def run_harness_sharded(binpath, args, lines, shards=NCPU, timeout=900, per_line=90):
+def run_harness_sharded(binpath, args, lines, shards=NCPU, timeout=900, per_line=240):
     """Runs the harness over `lines` split into contiguous shards in parallel child processes, one flushed output line
     per input.  Returns (ok, output_lines, diagnostics).  An input on which the child dies (abort, stack overflow) or
     does not answer within `per_line` seconds is reported as "CHILD-DIED" and makes ok False; the child is restarted
